@@ -341,6 +341,8 @@ def match_known(v, findings):
                 ok = False
         if 'symptom_regex' in m and not re.search(m['symptom_regex'], v.symptom):
             ok = False
+        if 'template_regex' in m and not re.search(m['template_regex'], v.template):
+            ok = False
         if 'symptom' in m and m['symptom'] != v.symptom:
             ok = False
         if ok:
